@@ -268,6 +268,18 @@ def coq_check_(case, obs):
     parts = [psp_ok]
     comps = [("re", "re")] + ([("im", "im")] if case.get("im") is not None else [])
     for a, b in comps:
+        xa, ya = np.array(case[a], dtype=np.float64), np.array(obs["out"][b], dtype=np.float64)
+        if kind in ("adjoint", "dof_adjoint") and not (np.all(np.isfinite(xa)) and np.all(np.isfinite(ya))):
+            # C10_adjoint_bin_independent: bins without a non-finite member are compared exactly with the model run
+            # on the input with the non-finite entries replaced by 0; the other bins must be non-finite
+            sh_h = blocks(obs["dom"])
+            dirty = ref_scatter((~np.isfinite(xa)).astype(np.float64), sh_h, idx, obs["pindex"], nb).ravel() > 0
+            if np.any(np.isfinite(ya[dirty])) or not np.all(np.isfinite(ya[~dirty])):
+                return "false"
+            parts.append("eq_list_masked %s (q_adjoint %s %d%%nat %s %d%%nat (qcs %s)) (qcs %s)" % (
+                C.clist([C.cbool(not v) for v in dirty]), d, idx, pin, nb,
+                cqs(np.where(np.isfinite(xa), xa, 0.0)), cqs(np.where(dirty, 0.0, ya))))
+            continue
         x, y = cqs(case[a]), cqs(obs["out"][b])
         if kind in ("times", "dof_times"):
             parts.append("eq_list (q_times %s %d%%nat %s %d%%nat (qcs %s)) (qcs %s)" % (d, idx, pin, nb, x, y))
@@ -295,7 +307,8 @@ def ref_gather(x, shape_h, idx, pindex):
 def ref_scatter(y, shape_p, idx, pindex, nbin):
     y = np.moveaxis(y.reshape(shape_p), idx, 0)
     out = np.zeros((nbin,) + y.shape[1:], dtype=y.dtype)
-    np.add.at(out, np.asarray(pindex, dtype=np.int64), y)
+    with np.errstate(invalid="ignore", over="ignore"):
+        np.add.at(out, np.asarray(pindex, dtype=np.int64), y)
     return np.moveaxis(out, 0, idx)
 
 
@@ -403,9 +416,13 @@ def direct_failure_(case, obs):
         if not np.array_equal(out, ref):
             return "distributed field does not give every mode the value of its bin"
     elif kind in ("adjoint", "dof_adjoint"):
-        ref = ref_scatter(x, sh_h, idx, pin, nb).ravel()
-        if not np.array_equal(out, ref):
-            return "adjoint distributor does not sum the members of each bin"
+        for part in (np.real, np.imag):
+            ref = ref_scatter(np.ascontiguousarray(part(x)), sh_h, idx, pin, nb).ravel()
+            with np.errstate(invalid="ignore"):
+                got = np.ascontiguousarray(part(out))
+            if not np.array_equal(got, ref, equal_nan=True):
+                bad = int(np.flatnonzero(~((got == ref) | (np.isnan(got) & np.isnan(ref))))[0])
+                return "adjoint distributor does not sum the members of each bin (entry %d: %r, members sum to %r)" % (bad, float(got[bad]), float(ref[bad]))
     elif kind == "powop":
         p = np.array(case["p"], dtype=np.float64)
         shp = [1] * len(sh_h)
@@ -664,6 +681,58 @@ def gen_history(rng):
 KINDS = ["times", "adjoint", "powop", "dof_times", "dof_adjoint", "analyze", "analyze", "exact"]
 
 
+def steep_cases(rng, n):
+    """Bin sums with a huge dynamic range (every member of bin b is m * 2**e_b, m a small integer, so float64 sums
+    within a bin are exact whatever the other bins hold) and inf / -inf / nan in single bins."""
+    out = []
+    for i in range(n):
+        kind = ["dof_adjoint", "adjoint", "analyze", "dof_adjoint"][i % 4]
+        try:
+            specs, (idx,) = gen_dom(rng, 1, False, maxtotal=100)
+            sizes = [mk_space(x).size for x in specs]
+            if kind == "dof_adjoint":
+                nh = sizes[idx]
+                nb = int(rng.integers(2, nh + 1)) if nh >= 2 else 1
+                dofdex = list(range(nb)) + [int(v) for v in rng.integers(0, nb, size=nh - nb)]
+                pin = [dofdex[j] for j in rng.permutation(nh)]
+                case = {"kind": kind, "dom": specs, "idx": idx, "dofdex": pin}
+            else:
+                bb = gen_binbounds(rng, specs[idx])
+                case = {"kind": kind, "dom": specs, "idx": idx, "binbounds": bb, "give_space": True}
+                ps = power_space_for(case, mk_space(specs[idx]))
+                pin, nb = [int(v) for v in ps.pindex.ravel()], int(ps.size)
+                if kind == "analyze":
+                    case = {"kind": "analyze", "dom": specs, "spaces": idx, "binbounds": bb, "keep": False}
+        except Exception:  # noqa: BLE001  (the generator must not depend on the code under test)
+            continue
+        pre, post = int(np.prod(sizes[:idx], dtype=np.int64)), int(np.prod(sizes[idx + 1:], dtype=np.int64))
+        if kind == "analyze":
+            step = int(rng.choice([6, 9, 12]))
+            e = step * (nb - 1 - np.arange(nb)) if rng.integers(0, 3) else step * np.arange(nb)      # |f|^2 >= 1 everywhere
+        else:
+            step = int(rng.choice([30, 60, 100]))
+            e = (250 - step * np.arange(nb)) if rng.integers(0, 3) else (-250 + step * np.arange(nb))
+            e = np.clip(e, -900, 900)
+
+        def values():
+            m = rng.integers(1, 8, size=(pre, len(pin), post)).astype(np.float64) * rng.choice([1.0, -1.0], size=(pre, len(pin), post))
+            return m * np.exp2(np.asarray(e, dtype=np.float64))[np.asarray(pin)][None, :, None]
+        re = values()
+        cplx = bool(rng.integers(0, 2))
+        im = values() if cplx else None
+        if kind != "analyze" and i % 3 == 0:          # one bin holds inf / -inf / nan (in some columns)
+            b = int(rng.integers(0, nb))
+            members = [j for j, q in enumerate(pin) if q == b]
+            for _ in range(int(rng.integers(1, 3))):
+                re[int(rng.integers(0, pre)), members[int(rng.integers(0, len(members)))], int(rng.integers(0, post))] = \
+                    float(rng.choice([np.inf, -np.inf, np.nan]))
+        case["re"] = [float(v) for v in re.ravel()]
+        case["im"] = [float(v) for v in im.ravel()] if cplx else None
+        case["steep"] = True
+        out.append(case)
+    return out
+
+
 def forced_cases(rng):
     """Input classes that random composition hits only sometimes: the acted-on sub-domain in the MIDDLE of a
     product domain with more than one pixel before and after it; several harmonic sub-domains with
@@ -712,6 +781,7 @@ def forced_cases(rng):
 def gen_cases(ctx, n, salt=10):
     rng = ctx.rng(salt)
     out = forced_cases(ctx.rng(salt + 2000)) if salt == 10 else []
+    out += steep_cases(ctx.rng(salt + 3000), max(24, n // 8))
     out += [gen_case(rng, KINDS[i % len(KINDS)]) for i in range(n)]
     rng2 = ctx.rng(salt + 1000)
     return out + [gen_history(rng2) for _ in range(max(6, n // 12))]
@@ -786,7 +856,7 @@ class C10(C.Check):
             errs += (o["error"] is not None) + sum(1 for so in o.get("steps", []) if so["error"] is not None)
         res.coverage.update({
             "evaluations": len(self.cases), "distinct_nontrivial": len(keys),
-            "rule": "generated product domains (1-3 sub-domains; analysed: harmonic RGSpace 1-D sizes 1-9 / 2-D up to 5x5 with dyadic distances, LMSpace lmax<=3; passive: RG, GL, PowerSpace, DOFSpace, LM, Unstructured), natural / midpoint-subset / linear / logarithmic / deliberately empty binnings, arbitrary dofdex for DOFDistributor, integer-valued real and complex fields; forced classes (acted-on sub-domain in the middle of a product domain with > 1 pixel before and after; several harmonic sub-domains with spaces = 0 / 1 / tuples / None; sub-domains without volume factors); histories of 3-7 power_analyze calls on ONE domain with changing binnings (natural / custom / empty bins, failing call then retry with the same binning), fields, dtypes and phase flags, every call compared with the pure model of its own arguments; non-trivial = at least 2 bins and a bin with at least 2 modes; distinct by (kind, domain, space, binning, dofdex, phase flag, dtype)",
+            "rule": "generated product domains (1-3 sub-domains; analysed: harmonic RGSpace 1-D sizes 1-9 / 2-D up to 5x5 with dyadic distances, LMSpace lmax<=3; passive: RG, GL, PowerSpace, DOFSpace, LM, Unstructured), natural / midpoint-subset / linear / logarithmic / deliberately empty binnings, arbitrary dofdex for DOFDistributor, integer-valued real and complex fields; bin sums with a huge dynamic range (members m*2^e_b, exponents 30-100 apart between bins, both orders) and inf / -inf / nan in single bins for the adjoint distributors (compared exactly, clean bins through C10_adjoint_bin_independent) and steep spectra for power_analyze; forced classes (acted-on sub-domain in the middle of a product domain with > 1 pixel before and after; several harmonic sub-domains with spaces = 0 / 1 / tuples / None; sub-domains without volume factors); histories of 3-7 power_analyze calls on ONE domain with changing binnings (natural / custom / empty bins, failing call then retry with the same binning), fields, dtypes and phase flags, every call compared with the pure model of its own arguments; non-trivial = at least 2 bins and a bin with at least 2 modes; distinct by (kind, domain, space, binning, dofdex, phase flag, dtype)",
             "samples": [{"case": {k: v for k, v in c.items() if k not in ("re", "im", "exact_p")}, "nbin": o.get("nbin"), "error": o["error"]}
                         for c, o in list(zip(self.cases, self.obs))[3:6]],
             "input_distribution": {"by_function": dist, "binning": binning, "n_subdomains": ndom, "cases_raising": errs},
